@@ -87,6 +87,7 @@ class Model(object):
             'partition': rec['partition'],
             'amt': amounts(rec),
             'traits': sorted(set(rec.get('traits', []))),
+            'raw': {dim: rec[dim] for dim in DIMS},
         }
 
     def headroom(self, cell, partition, traits, exclude):
@@ -615,12 +616,27 @@ def cases(draw, max_ops=8):
                 traits = None
             eff_traits = traits or []
 
-        scopes = model.headroom(cell, eff_part, eff_traits, rid)
-        mode = draw(st.sampled_from(
-            ['exact', 'exact', 'over', 'over', 'near', 'near', 'under',
-             'random', 'zero']))
-        amt = draw(_aimed_amounts(scopes, mode))
-        rsrc.update(draw(_spell_rec(amt)))
+        if is_update and old is not None and draw(st.integers(0, 5)) == 0:
+            # re-send exactly what is stored (same spellings, same
+            # partition) and change only the traits / rank: still a request
+            # that has to fit
+            mode = 'same'
+            pname = eff_part = old['partition']
+            send_partition = True
+            traits = draw_traits(cell, pname, prefer=limited(cell, pname))
+            if traits:
+                eff_traits = traits
+            else:
+                traits = None
+                eff_traits = old['traits']
+            rsrc.update(old['raw'])
+        else:
+            scopes = model.headroom(cell, eff_part, eff_traits, rid)
+            mode = draw(st.sampled_from(
+                ['exact', 'exact', 'over', 'over', 'near', 'near', 'under',
+                 'random', 'zero']))
+            amt = draw(_aimed_amounts(scopes, mode))
+            rsrc.update(draw(_spell_rec(amt)))
         if send_partition:
             rsrc['partition'] = pname
         if traits is not None:
@@ -642,9 +658,7 @@ def cases(draw, max_ops=8):
         if not is_update and old is not None:
             continue
         fits = not model.misfits(cell, eff_part, eff_traits,
-                                 {'cpu': amt['cpu'],
-                                  'memory': amt['memory'] * K,
-                                  'disk': amt['disk'] * K}, rid)
+                                 amounts(rsrc), rid)
         if fits:
             merged = {'partition': eff_part, 'traits': eff_traits}
             merged.update({dim: rsrc[dim] for dim in DIMS})
